@@ -332,37 +332,78 @@ def specShowMaybe (h : Heap) (c : Spec.Ctor) (v fb : GoVal) (identOverride : Opt
              else "M[any](" ++ bstr false ++ bstr true ++ " " ++ rnd h v ++ ") " ++ idt
   | .generics T => "M[" ++ tyName T ++ "](" ++ bstr (Spec.absent v) ++ bstr (!Spec.absent v) ++ " " ++ rnd h v ++ ") " ++ idt
 
-/-- expected observation of an op according to the property (`none`: the property only demands "no panic") -/
-def specObs (e : Env) (c : Spec.Ctor) (op : String) : Option String :=
+/-- The property does not fix how an absent Maybe is represented (`None`, `someDef{nil,true,false}` and
+    `someDef{(*T)(nil),true,false}` are observationally equal, `C01_absent_obsEq`): before Maybe-valued results are
+    compared, every rendering of an absent Maybe (`None`, `M[..](tf ..)`) is replaced by `ABSENT`. -/
+def skipBalanced : Nat → Nat → List Char → List Char
+  | 0, _, cs => cs
+  | _, _, [] => []
+  | f + 1, d, c :: cs =>
+    if c = '(' then skipBalanced f (d + 1) cs
+    else if c = ')' then (if d ≤ 1 then cs else skipBalanced f (d - 1) cs)
+    else skipBalanced f d cs
+
+def normAbsentL : Nat → List Char → List Char
+  | 0, cs => cs
+  | _, [] => []
+  | f + 1, 'N' :: 'o' :: 'n' :: 'e' :: cs => "ABSENT".toList ++ normAbsentL f cs
+  | f + 1, ']' :: '(' :: 't' :: 'f' :: ' ' :: cs => "]ABSENT".toList ++ normAbsentL f (skipBalanced (cs.length + 1) 1 cs)
+  | f + 1, c :: cs => c :: normAbsentL f cs
+
+/-- second pass: `M[<ty>]ABSENT` → `ABSENT` (the type parameter of an absent Maybe is not an observation) -/
+def dropTyL : Nat → List Char → List Char
+  | 0, cs => cs
+  | _, [] => []
+  | f + 1, 'M' :: '[' :: cs =>
+    let ty := cs.takeWhile (· ≠ ']')
+    let rest := cs.dropWhile (· ≠ ']')
+    if "]ABSENT".toList.isPrefixOf rest then dropTyL f (rest.drop 1) else 'M' :: '[' :: dropTyL f cs
+  | f + 1, c :: cs => c :: dropTyL f cs
+
+def normAbsent (s : String) : String :=
+  String.ofList (dropTyL (s.length + 1) (normAbsentL (s.length + 1) s.toList))
+
+/-- observations of an op the property accepts (`none`: the property only demands "no panic");
+    the flag says whether Maybe renderings are compared up to the representation of absence -/
+def specObs (e : Env) (c : Spec.Ctor) (op : String) : Option (List String × Bool) :=
   let (name, arg) := splitOp op
   let v := e.v
   let ab := Spec.absent v
   match name with
-  | "IsNil" => some (bstr (Spec.isNil v))
-  | "IsPresent" => some (bstr (Spec.isPresent v))
-  | "Or" => some (showVal e.h (Spec.or v e.fb) v e.fb)
-  | "Let" => some ("n=" ++ toString (Spec.letCount v))
-  | "UnwrapInterface" => some (showVal e.h (Spec.unwrapInterface v) v e.fb)
-  | "Type" => some ("T:" ++ (match Spec.type v with | some t => tyName t | none => "nil"))
-  | "ToString" => if ab then some ("S:" ++ Spec.nilString) else none
+  | "IsNil" => some ([bstr (Spec.isNil v)], false)
+  | "IsPresent" => some ([bstr (Spec.isPresent v)], false)
+  | "Or" => some ([showVal e.h (Spec.or v e.fb) v e.fb], true)
+  | "Let" => some (["n=" ++ toString (Spec.letCount v)], false)
+  | "UnwrapInterface" => some ([showVal e.h (Spec.unwrapInterface v) v e.fb], true)
+  | "Type" =>
+    -- a nested Maybe given as `v` was built by the library itself: its concrete struct type (noneDef / someDef[T])
+    -- is a representation choice, only "not the nil Type" is demanded there
+    match asMaybe? v with
+    | some _ => some (["T:noneDef", "T:some:any", "T:" ++ (match Spec.type v with | some t => tyName t | none => "nil")], false)
+    | none => some (["T:" ++ (match Spec.type v with | some t => tyName t | none => "nil")], false)
+  | "ToString" => if ab then some (["S:" ++ Spec.nilString], false) else none
   | "ToMaybe" =>
-    if ab then some (specShowMaybe e.h c v e.fb none)
+    if ab then some ([specShowMaybe e.h c v e.fb none], true)
     else match Spec.innerMaybe? c.param v with
-      | some m' => some (showMaybe e.h m' v e.fb)
-      | none => some (specShowMaybe e.h c v e.fb none)
+      | some m' => some ([showMaybe e.h m' v e.fb], true)
+      | none => some ([specShowMaybe e.h c v e.fb none], true)
   | "Clone" =>
     match v with
-    | .ptr _ (some _) => some (specShowMaybe e.h c v e.fb (some "fresh"))
-    | _ => some (specShowMaybe e.h c v e.fb none)
+    | .ptr _ (some _) => some ([specShowMaybe e.h c v e.fb (some "fresh")], true)
+    | _ => some ([specShowMaybe e.h c v e.fb none], true)
   | "FlatMap" =>
     match flatFn c.param e.fb arg with
     | none => none
     | some f =>
-      match (f (Spec.wrapped c v)).run [] with
-      | .ok (r, log) => some ("c=1 a=[" ++ showArgs e log ++ "] r=" ++ showMaybe e.h r v e.fb)
-      | .error _ => none
+      -- the wrapped value; for `Maybe.Just` of a typed nil pointer the property leaves open whether that is the
+      -- typed nil itself or the untyped nil (the code: `None`, i.e. the untyped nil)
+      let ws := if Spec.wrapped c v = v then [v] else [Spec.wrapped c v, v]
+      some (ws.filterMap (fun w =>
+        match (f w).run [] with
+        | .ok (r, log) => some ("c=1 a=[" ++ showArgs e log ++ "] r=" ++ showMaybe e.h r v e.fb)
+        | .error _ => none), true)
   | _ =>
-    if convName? name then some (match Spec.conv v with | .errNil => "errnil" | .other => "other") else none
+    if convName? name then some ([match Spec.conv v with | .errNil => "errnil" | .other => "other"], false) else none
 
 def assocAgrees (obs : String) : Bool :=
   match obs.splitOn " R=" with
@@ -379,7 +420,10 @@ def judgeOps (e : Env) (c : Spec.Ctor) : List String → List String → Option 
         if (splitOp op).1 == "Assoc" then
           if assocAgrees o then none else some (op ++ ": m.FlatMap(f).FlatMap(g) and m.FlatMap(x => f(x).FlatMap(g)) differ: " ++ o)
         else match specObs e c op with
-          | some exp => if exp == o then none else some (op ++ ": property demands '" ++ exp ++ "', implementation gave '" ++ o ++ "'")
+          | some (exps, upToAbsent) =>
+            let nrm := fun (s : String) => if upToAbsent then normAbsent s else s
+            if exps.any (fun exp => nrm exp == nrm o) then none
+            else some (op ++ ": property demands '" ++ " or ".intercalate exps ++ "', implementation gave '" ++ o ++ "'")
           | none => none
       match bad with
       | some b => some b
@@ -396,7 +440,7 @@ def judge (line impl : String) : String :=
     match buildEnv cs with
     | .error _ => "violation model cannot build the value"
     | .ok e =>
-      if impl == "hang" || impl == "crash" || impl == "panic" then "violation the case did not complete: " ++ impl
+      if impl == "hang" || impl == "crash" then "violation the case did not complete: " ++ impl
       else
         match judgeOps e cs.c cs.ops (impl.splitOn " | ") with
         | some why => "violation " ++ why
